@@ -194,7 +194,7 @@ def run(ctx):
         transitions=total["steps"] + (t2["transitions"] if t2 else 0) + (t3["transitions"] if t3 else 0),
         traces_validated_against_impl=total["executions"] + (t2["executions"] if t2 else 0) + (t3["executions"] if t3 else 0),
         t3=t3["summary"] if t3 else "not run",
-        sizes_free_running={"cases": sz["cases"], "executions": sz["executions"], "sizes": sz["sizes"], "note": "exhaustive over sizes/kinds/shapes, NOT over schedules"},
+        sizes_free_running={"cases": sz["cases"], "executions": sz["executions"], "sizes": sz["sizes"], "timing_dependent_wrong_returncodes_seen": sz["timing_dependent_wrong_returncodes_seen"], "note": "exhaustive over sizes/kinds/shapes, NOT over schedules"},
         preemption_bound=bound,
         exhaustive=total["capped"] is None and (t2["exhaustive"] if t2 else True) and (t3["exhaustive"] if t3 else True),
         caps_hit=total["capped"],
